@@ -4,6 +4,8 @@ from __future__ import annotations
 
 import math
 
+import numpy as np
+
 from mc import ordertypes as ot
 from mc.harness import guarded
 
@@ -45,6 +47,11 @@ def work(tier, seed):
         items.append({"ladder": n})
     for n in ((3000,) if tier == "quick" else (500, 3000, 20000)):
         items.append({"inverted": n})
+    # two densities: one class packed into a narrow interval between sparse scores of the other (spacing 1e-9 .. 1e-14
+    # of the magnitude, still thousands of ulps): an error of 1e-10 in e moves the threshold across many packed scores
+    for width in (1e-3, 1e-6, 1e-8, 1e-10):
+        for dense in ("pos", "neg"):
+            items.append({"two_density": width, "dense": dense, "n": 1001})
     P, Q = b["all_types_max"]
     for bl in ot.order_types(P, Q, 1, 1):
         if bl in seen:
@@ -101,6 +108,35 @@ def run(item, ctx, tier, seed):
                              expected="within one sample, capped by the hard fractions")
         ctx.sample({"inverted_n": n})
         return None
+    if "two_density" in item:
+        w, n = item["two_density"], item["n"]
+        packed = (2.0 + w * np.arange(n) / (n - 1)).tolist()
+        for sparse in ([0.0, 1.0, 3.0, 4.0], [1.0, 2.0 + w / 3, 2.0 + 2 * w / 3 + w / (7 * n), 5.0, 6.0]):
+            sparse = [v for v in sparse if v not in set(packed)]
+            pos, neg = (packed, sparse) if item["dense"] == "pos" else (sparse, packed)
+            for cfg in ot.CFGS:
+                for ep, en in ((0, 0), (2, 1)):
+                    case = {"two_density_width": w, "dense_class": item["dense"], "n_dense": n, "sparse_scores": sparse, "cfg": cfg, "easy": [ep, en]}
+                    ctx.state()
+                    ok, s = guarded(ctx, "construct", case, Scores, pos, neg, nb_easy_pos=ep, nb_easy_neg=en, score_class=cfg[0], equal_class=cfg[1])
+                    if not ok:
+                        continue
+                    ok, res = guarded(ctx, "eer", case, s.eer)
+                    ctx.tick()
+                    ctx.nontrivial()
+                    if not ok:
+                        continue
+                    t, e = float(res[0]), float(res[1])
+                    fpr, fnr = float(s.fpr(t)), float(s.fnr(t))
+                    NP, NN = len(pos) + ep, len(neg) + en
+                    ctx.outcome((w, item["dense"], cfg, ep, en, round(e, 9)))
+                    if not (0 <= e <= 1 and abs(fpr - e) <= 1.0 / NN + 1e-9 and abs(fnr - e) <= 1.0 / NP + 1e-9
+                            and e <= min(len(pos) / NP, len(neg) / NN) + 1e-12):
+                        ctx.fail("crossing-point-on-two-density-data", case, observed={"t": t, "eer": e, "fpr": fpr, "fnr": fnr,
+                                 "fnr_off_by_samples": abs(fnr - e) * NP, "fpr_off_by_samples": abs(fpr - e) * NN},
+                                 expected="within one sample, capped by the hard fractions")
+        ctx.sample({"two_density_width": w, "dense": item["dense"], "n": n})
+        return None
     if "ladder" in item:
         n = item["ladder"]
         pos, neg = ot.ladder_dataset(n, True, seed)
@@ -150,7 +186,6 @@ def run(item, ctx, tier, seed):
             case = {"blocks": item["blocks"], "grid": item["grid"], "pos": pos, "neg": neg, "cfg": cfg,
                     "easy": [ep, en]}
             if item["grid"] in ("uint", "int8", "int16"):
-                import numpy as np
 
                 dt_ = {"uint": np.uint8, "int8": np.int8, "int16": np.int16}[item["grid"]]
                 pin, nin = np.array(pos[::-1], dtype=dt_), np.array(neg[::-1], dtype=dt_)
@@ -168,8 +203,7 @@ def run(item, ctx, tier, seed):
                                   nb_easy_pos=ep + 1, nb_easy_neg=en, score_class=sc, equal_class=ec)
                 if ok3:
                     guarded(ctx, "warm-up", case, s3.eer)
-                    import numpy as np
-
+    
                     s3.pos, s3.neg = np.sort(np.asarray(pos, dtype=float)), np.sort(np.asarray(neg, dtype=float))
                     s3.nb_easy_pos, s3.nb_easy_neg = ep, en
                     okm, resm = guarded(ctx, "eer-after-attribute-update", case, s3.eer)
@@ -239,7 +273,6 @@ def run(item, ctx, tier, seed):
         # bootstrap samples (incl. smoothed ones) and swap() are Scores objects: the crossing clauses apply to
         # every derived object that is itself tie-free
         from mc.derived import derived_objects
-        import numpy as np
 
         for cfg in ot.CFGS[::3]:
             s0 = Scores(pos[::-1], neg[::-1], nb_easy_pos=1, nb_easy_neg=0, score_class=cfg[0], equal_class=cfg[1])
